@@ -300,6 +300,33 @@ def run(ck):
                   'the static string from extract_static_string() is parsed as is' if ok else 'the colour string is transformed before parsing: %s' % pp(recv, maxlen=60))
         errs = [x for x in H.calls_in(pc['body']) if H.is_call_to(x, 'Diagnostic::error')]
         ck.ob('R19.2', 'parse-error-diagnosed', bool(errs), L.loc(pc['body']), 'Err(e) arm pushes Diagnostic::error')
+        # every way the parse can fail is an error and yields no colour: each arm of the match on the parse result other than Ok(c)
+        import nonediag as _nd
+        for c in ps:
+            mm = H.parents(pc).get(id(c))
+            if mm is None or mm.get('k') != 'Match' or mm.get('e') is not c:
+                ck.ob('R19.2', 'every-parse-failure-rejects', False, L.loc(c), 'the result of parse::<Color>() is not the scrutinee of a match: form not understood')
+                continue
+            bad = []
+            n_ok = 0
+            for arm in mm['arms']:
+                pt = pp(arm['pat'], maxlen=60)
+                if pt.startswith('Ok(') and 'guard' not in arm:
+                    n_ok += 1
+                    vs = [H.strip_refs(v) for v in H.value_exprs(arm['body'])]
+                    b_ = {b['hid'] for b in H.pat_bindings(arm['pat'])}
+                    if not (len(vs) == 1 and vs[0].get('k') == 'Call' and (vs[0].get('def') or '').endswith('Option::Some') and (H.root_local(vs[0]['args'][0]) or {}).get('hid') in b_):
+                        bad.append('%s does not yield the parsed colour' % pt)
+                    continue
+                pushes = [x for x in H.calls_in(arm['body']) if x.get('k') == 'MCall' and x.get('m') == 'push' and 'Diagnostics' in (L.ty(x['recv'], adjusted=True) or L.ty(x['recv']) or '')]
+                is_err = any(not _nd.is_warning_push(x) for x in pushes)
+                vs = [H.strip_refs(v) for v in H.value_exprs(arm['body'])]
+                none = bool(vs) and all(v.get('k') == 'Path' and (v.get('def') or '').endswith('Option::None') for v in vs)
+                if not (is_err and none):
+                    bad.append('%s %s' % (pt, 'yields a colour' if not none else 'pushes no error'))
+            ck.ob('R19.2', 'every-parse-failure-rejects', not bad and n_ok == 1, L.loc(mm),
+                  'Ok(c) => Some(c); every other arm pushes an error and yields None' if not bad and n_ok == 1 else
+                  'a string that is not a colour is not rejected on every path: %s' % '; '.join(bad or ['%d Ok arms' % n_ok]))
 
     # ---- R19.3 hex arms -------------------------------------------------------------------
     ph = L.fn('color::parse_hex_color')
